@@ -94,6 +94,7 @@ def analyse(rep: Report) -> None:
     rep.rule('R08.6', 'publishTime is availabilityStartTime plus a whole number of update periods', floor=6)
     rep.rule('R08.7', 'divisors are non-zero on every path', floor=2)
     rep.rule('R08.8', 'one branch per symbolic start value, parser and branches agree', floor=5)
+    rep.rule('R08.9', 'the publishTime grid of a symbolic start is anchored at one instant per calendar unit', floor=3)
     rep.axioms.extend([
         'wall clock: now >= 2020-01-01T00:00:00Z',
         'an explicit start instant is <= now (quantification of C08)',
@@ -285,6 +286,33 @@ def analyse(rep: Report) -> None:
                     f'(provenance {tag or "unknown"}): flooring a fractional availabilityStartTime breaks the grid')
         else:
             rep.ok('R08.6', construct, f'no period {where}', 'minimumUpdatePeriod disabled: publishTime = floor(now)')
+    # R08.9: with a period p, publishTime = AST + k*p is monotone in now while AST stands still.  A
+    # symbolic start whose AST takes two values relative to the same calendar floor (the back-off
+    # branch taken or not) re-anchors the grid when the branch flips; the new grid continues the old
+    # one only if p divides the shift, which nothing constrains.
+    anchors: dict[str, set[float]] = {}
+    for s in exits:
+        s.close()
+        lab = _label(s)
+        if lab not in ('today', 'month', 'year') or f'none:{MUP}' in s.facts:
+            continue
+        ghost = f"now@{ {'today': 'day', 'month': 'month', 'year': 'year'}[lab] }"
+        up, lo_ = s.upper_diff(AST_, ghost), -s.upper_diff(ghost, AST_)
+        if abs(up) != INF and up == lo_:
+            anchors.setdefault(lab, set()).add(up)
+        else:
+            anchors.setdefault(lab, set()).add(float('nan'))
+    for lab, offs in sorted(anchors.items()):
+        key = f'grid anchor start={lab}'
+        vals = sorted(o for o in offs if o == o)
+        if len(offs) == 1:
+            rep.ok('R08.9', construct, key, f'one anchor: calendar floor {vals[0]:+g} s')
+        else:
+            rep.fail('R08.9', construct, key,
+                     f'availabilityStartTime for start={lab} is the calendar floor shifted by {vals or "?"} seconds '
+                     'depending on a back-off branch, and publishTime = availabilityStartTime + k*p: when the branch '
+                     'flips the grid is re-anchored by the difference, which p need not divide - publishTime '
+                     'moves backward as now advances', live)
     for (rid, key), rs in results.items():
         bad = [r for r in rs if not r[0]]
         if bad:
